@@ -33,7 +33,7 @@ RULE = ("gradient: every (element kind, block dims, perturbation, node numbering
 ASSUMPTIONS = [
     "exactness of an operator on linear fields is decided per mesh/numbering/row-order configuration; fields enter "
     "linearly, so the full 64-field menu is run on the plain configurations and a small field list on every other one",
-    "blocks are perturbed by a fixed offset table (max 7 % of the cell size); non-degeneracy (positive corner Jacobians "
+    "blocks (unit or anisotropic 0.5 x 2 x 1.25 cells) are perturbed by a fixed offset table (max 7 % of the cell size); non-degeneracy (positive corner Jacobians "
     "/ tetra volumes) is asserted by the reference for every mesh used",
     "scipy.interpolate.griddata (Qhull) is part of the executed system",
     "hot-spot labels of components with equal peak value may come in any order (idxmax picks the first row)",
@@ -43,7 +43,8 @@ C_MENU = (-3.0, 0.0, 0.5, 2.0)
 C0 = 1.0
 FIELDS_FEW = ((2.0, -3.0, 0.5), (0.0, 0.0, 2.0))
 FIELDS_ALL = tuple(itertools.product(C_MENU, repeat=3))
-PERTS_ALL = ((0.0, 0),) + tuple((1.0, s) for s in range(5))
+# perturbation = (amplitude in cell units, shift into the offset table, spacing id: 0 unit cells, 1 = (0.5, 2, 1.25))
+PERTS_ALL = ((0.0, 0, 0), (0.0, 0, 1)) + tuple((1.0, s, s % 2) for s in range(5))
 DIMS2 = tuple(itertools.product((1, 2), repeat=3))
 DIMS3 = tuple(itertools.product((1, 2, 3), repeat=3))
 FRACS = (0.5, 0.75, 1.0)
@@ -58,16 +59,16 @@ def _tier(tier):
     if tier == "quick":
         return {
             "gradient": {"kinds": ("hex", "tet5", "tet6"), "dims": ((1, 1, 1), (2, 1, 1), (2, 2, 2)),
-                         "perts": ((0.0, 0), (1.0, 1), (1.0, 3)), "node_numberings": M.NUMBERINGS,
+                         "perts": ((0.0, 0, 0), (1.0, 1, 1), (1.0, 3, 0)), "node_numberings": M.NUMBERINGS,
                          "element_numberings": ("identity", "times10plus5", "reversed"),
                          "row_orders(Gradient3D)": ("given", "reversed_blocks", "interleaved"),
                          "row_orders(Gradient)": ("given", "reversed_blocks", "interleaved", "shuffled"),
                          "fields": FIELDS_FEW,
                          "field_sweep": {"kinds": ("hex", "tet5", "tet6"), "dims": ((1, 1, 1), (2, 1, 2)),
-                                         "perts": ((1.0, 2),), "fields": FIELDS_ALL}},
-            "mapping": {"dims": ((1, 1, 1), (2, 1, 1), (2, 2, 2)), "perts": ((0.0, 0), (1.0, 1), (1.0, 4)),
+                                         "perts": ((1.0, 2, 1),), "fields": FIELDS_ALL}},
+            "mapping": {"dims": ((1, 1, 1), (2, 1, 1), (2, 2, 2)), "perts": ((0.0, 0, 0), (1.0, 1, 1), (1.0, 4, 0)),
                         "fields": FIELDS_FEW + ((0.0, 0.0, 0.0),)},
-            "surface": {"dims": ((1, 1, 1), (2, 2, 2), (3, 1, 2), (3, 3, 3)), "perts": ((0.0, 0), (1.0, 1), (1.0, 3)),
+            "surface": {"dims": ((1, 1, 1), (2, 2, 2), (3, 1, 2), (3, 3, 3)), "perts": ((0.0, 0, 0), (0.0, 0, 1), (1.0, 1, 1), (1.0, 3, 0)),
                         "node_numberings": M.NUMBERINGS, "element_numberings": ("identity", "times10plus5", "reversed"),
                         "row_orders": ("given", "interleaved", "shuffled")},
             "hotspot": {"max_elements": 2, "values": (1, 2, 3), "fracs": FRACS, "variants_small": ("plain", "gaps-reversed-rows"),
@@ -75,24 +76,29 @@ def _tier(tier):
         }
     return {
         "gradient": {"kinds": ("hex", "tet5", "tet6"), "dims": DIMS2,
-                     "perts": ((0.0, 0), (1.0, 0), (1.0, 2)), "node_numberings": M.NUMBERINGS,
+                     "perts": ((0.0, 0, 0), (1.0, 0, 1), (1.0, 2, 0)), "node_numberings": M.NUMBERINGS,
                      "element_numberings": M.NUMBERINGS,
                      "row_orders(Gradient3D)": ("given", "reversed_blocks", "interleaved"),
                      "row_orders(Gradient)": ("given", "reversed_blocks", "interleaved", "shuffled"),
                      "fields": FIELDS_FEW,
-                     "field_sweep": {"kinds": ("hex", "tet5", "tet6"), "dims": DIMS2, "perts": PERTS_ALL, "fields": FIELDS_ALL}},
-        "mapping": {"dims": DIMS2, "perts": PERTS_ALL, "fields": FIELDS_ALL},
-        "surface": {"dims": DIMS3, "perts": PERTS_ALL, "node_numberings": M.NUMBERINGS, "element_numberings": M.NUMBERINGS,
+                     "field_sweep": {"kinds": ("hex", "tet5", "tet6"), "dims": DIMS2,
+                                     "perts": ((1.0, 1, 1), (1.0, 3, 0), (1.0, 4, 1)), "fields": FIELDS_ALL}},
+        "mapping": {"dims": DIMS2, "perts": PERTS_ALL, "fields": FIELDS_ALL, "fields_other_sources": FIELDS_FEW},
+        "surface": {"dims": DIMS3, "perts": PERTS_ALL, "node_numberings": M.NUMBERINGS,
+                    "element_numberings": ("identity", "times10plus5", "reversed"),
                     "row_orders": ("given", "interleaved", "shuffled")},
-        "hotspot": {"max_elements": 3, "max_rows_full_alphabet": 8, "values": (1, 2, 3), "fracs": FRACS,
+        "hotspot": {"max_elements": 3, "max_rows_full_alphabet": 7, "values_above": (1, 2), "max_rows_variants": 7, "values": (1, 2, 3), "fracs": FRACS,
                     "variants_small": ("plain", "gaps-reversed-rows", "interleaved"),
-                    "chains": {"values": (1, 2, 3), "variants": ("plain", "gaps-reversed-rows", "interleaved")}},
+                    "variants_7_rows": ("plain", "gaps-reversed-rows"),
+                    "chains": {"values": (1, 2, 3), "values_variants": (1, 3),
+                               "variants": ("plain", "gaps-reversed-rows", "interleaved")}},
     }
 
 
 def bounds(tier):
     t = _tier(tier)
     t["offset_table"] = M.OFFSETS
+    t["cell_spacings"] = M.SPACINGS
     t["c0"] = C0
     t["tolerances"] = {"gradient atol": "1e-9 * max(1, max|c|)", "mapping identity": "1e-12 * max(1, max|f|)",
                        "mapping linear": "1e-9 * max(1, max|f|)"}
@@ -104,7 +110,7 @@ def bounds(tier):
 def mesh_frame(kind, dims, pert, nnum, enum, order):
     """-> (DataFrame indexed (element_id, node_id) with x,y,z; {assigned node id: natural id}; boundary (assigned ids))"""
     import pandas as pd
-    nodes, els, bnd = M.block(kind, tuple(dims), pert[0], pert[1])
+    nodes, els, bnd = M.block(kind, tuple(dims), pert[0], pert[1], pert[2])
     if not M.non_degenerate(nodes, els):
         raise AssertionError("reference mesh degenerate: %r" % ((kind, dims, pert),))
     nm = M.numbering(nnum, len(nodes))
@@ -126,7 +132,8 @@ def check_gradient(case):
     import pylife.mesh  # noqa: F401
     df, back, _ = mesh_frame(case["kind"], case["dims"], case["pert"], case["nnum"], case["enum"], case["order"])
     op = case["op"]
-    cls = "" if case["nnum"] in ("identity", "reversed", "derangement") else "/node-ids-not-1..N"
+    # Gradient addresses rows by node id: ids that are not 1..N are their own input class (own key)
+    cls = "" if op != "Gradient" or case["nnum"] in ("identity", "reversed", "derangement") else "/node-ids-not-1..N"
     viol, outcome = [], []
     for c in case["fields"]:
         df["f"] = _field(df, c)
@@ -203,7 +210,9 @@ def check_mapping(case):
     elif case["target"] == "centroids":
         tgt = df[["x", "y", "z"]].groupby("element_id").mean()
     else:
-        pts = [(nx * a, ny * b, nz * cc) for a in (0.25, 0.5, 0.75) for b in (0.25, 0.5, 0.75) for cc in (0.25, 0.5, 0.75)]
+        h = M.SPACINGS[pert[2]]
+        pts = [(nx * a * h[0], ny * b * h[1], nz * cc * h[2])
+               for a in (0.25, 0.5, 0.75) for b in (0.25, 0.5, 0.75) for cc in (0.25, 0.5, 0.75)]
         tgt = pd.DataFrame(pts, columns=["x", "y", "z"], index=pd.Index(range(500, 500 + len(pts)), name="point"))
     try:
         with warnings.catch_warnings():
@@ -231,7 +240,8 @@ def _mapping_cases(t):
         for pert in m["perts"]:
             for source in ("nodes", "nodes-shuffled", "mesh-rows"):
                 for target in ("same", "centroids", "lattice"):
-                    fields = [list(c) for c in m["fields"]] + (["nonlinear"] if target == "same" else [])
+                    fl = m["fields"] if source == "nodes" else m.get("fields_other_sources", m["fields"])
+                    fields = [list(c) for c in fl] + (["nonlinear"] if target == "same" else [])
                     for c in fields:
                         yield {"family": "mapping", "dims": list(dims), "pert": list(pert), "source": source,
                                "target": target, "field": c}
@@ -333,14 +343,17 @@ def _hotspot_blocks(t):
     out = []
     for st in M.incidence_structures(h["max_elements"]):
         n = sum(len(e) for e in st)
-        alpha = h["values"] if n <= h.get("max_rows_full_alphabet", 99) else (1, 3)
+        alpha = h["values"] if n <= h.get("max_rows_full_alphabet", 99) else h["values_above"]
         for variant in h["variants_small"]:
-            if variant != "plain" and n > 7:
+            if variant != "plain" and (n > 7 or n == 7 and variant not in h.get("variants_7_rows", h["variants_small"])):
                 continue
             out.append((st, variant, alpha, h["fracs"]))
     for name, st in CHAINS.items():
         for variant in h["chains"]["variants"]:
-            out.append((st, variant, h["chains"]["values"], h["fracs"]))
+            n = sum(len(e) for e in st)
+            alpha = h["chains"]["values"] if variant == "plain" and n <= h.get("max_rows_full_alphabet", 99) \
+                else h["chains"].get("values_variants", h["chains"]["values"])
+            out.append((st, variant, alpha, h["fracs"]))
     return out
 
 
@@ -368,7 +381,7 @@ def shards(tier):
 
 
 def _nontrivial(case):
-    return case["pert"][0] != 0.0 or case.get("nnum", "identity") != "identity" or case.get("enum", "identity") != "identity" \
+    return case["pert"][0] != 0.0 or case["pert"][2] != 0 or case.get("nnum", "identity") != "identity" or case.get("enum", "identity") != "identity" \
         or case.get("order", "given") != "given" or case.get("source", "nodes") != "nodes"
 
 
